@@ -60,6 +60,8 @@ fn judge<T: Tier>(ctx: &mut Ctx, q: Q4<T>, exact_branch: Option<&'static str>) {
     eq_mc::<T, 3>(ctx, &key("Basis3::from(q)"), basis3_arr(b3), mm, slack);
     same_slice(ctx, &key("Basis3::from_quaternion"), &flat_m(basis3_arr(b3b)), &flat_m(basis3_arr(b3)));
     same_slice(ctx, &key("Matrix4-embeds-Matrix3"), &flat_m(m4(m4c)), &flat_m(m4(Matrix4::from(m3c))));
+    // Basis3 -> Matrix3 through the public conversion (the harness otherwise reads a Basis3 through AsRef)
+    same_slice(ctx, &key("Matrix3::from(Basis3)"), &flat_m(m3(Matrix3::from(b3))), &flat_m(basis3_arr(b3)));
     // orthonormal, determinant +1
     let mt = model::mmul(model::mtranspose(mm), mm);
     let id = model::mident::<T::M, 3>();
@@ -106,7 +108,33 @@ fn judge<T: Tier>(ctx: &mut Ctx, q: Q4<T>, exact_branch: Option<&'static str>) {
 }
 
 fn convert<T: Tier>(rep: &mut Report) {
-    let uq = alphabet::uq(1);
+    let mut uq = alphabet::uq(1);
+    // unit quaternions with one tiny and one dominant component, (1, 2k, 2k^2, 0)/(2k^2 + 1) in every arrangement: the
+    // pivots of the matrix -> quaternion branches differ by orders of magnitude, and a diagonal element is within 1e-4 of +-1
+    for k in [3i64, 10, 50] {
+        let t = [1, 2 * k, 2 * k * k, 0];
+        let d = 2 * k * k + 1;
+        let mut idx = [0usize, 1, 2, 3];
+        // all 24 arrangements (Heap's algorithm, iterative)
+        let mut c = [0usize; 4];
+        let mut perms = vec![idx];
+        let mut i = 0;
+        while i < 4 {
+            if c[i] < i {
+                if i % 2 == 0 { idx.swap(0, i) } else { idx.swap(c[i], i) }
+                perms.push(idx);
+                c[i] += 1;
+                i = 0;
+            } else {
+                c[i] = 0;
+                i += 1;
+            }
+        }
+        for (n, p) in perms.iter().enumerate() {
+            let sg = |j: usize| if (n >> j) & 1 == 1 { -1 } else { 1 };
+            uq.push(([sg(0) * t[p[0]], sg(1) * t[p[1]], sg(2) * t[p[2]], sg(3) * t[p[3]]], d));
+        }
+    }
     rep.cases(
         "convert",
         T::NAME,
@@ -196,7 +224,18 @@ fn group<T: Tier>(rep: &mut Report) {
             let rb: Basis3<T> = Basis3::from(cq) * Basis3::from(cg);
             eq_mc::<T, 3>(ctx, &key("composition/Basis3"), basis3_arr(lb), of_prod, slack);
             eq_mc::<T, 3>(ctx, &key("composition/Basis3"), basis3_arr(rb), prod_m, slack);
+            // ... and for Matrix4 (both orders of the two factors)
+            let l4: Matrix4<T> = (cq * cg).into();
+            let r4: Matrix4<T> = Matrix4::from(cq) * Matrix4::from(cg);
+            eq_mc::<T, 4>(ctx, &key("composition/Matrix4"), m4(l4), model::embed::<_, 3, 4>(of_prod), slack);
+            eq_mc::<T, 4>(ctx, &key("composition/Matrix4"), m4(r4), model::embed::<_, 3, 4>(prod_m), slack);
+            let of_prod_r = model::qmat(model::qmul(mg, mq));
+            let lr: Matrix3<T> = (cg * cq).into();
+            let rr: Matrix3<T> = Matrix3::from(cg) * Matrix3::from(cq);
+            eq_mc::<T, 3>(ctx, &key("composition/Matrix3"), m3(lr), of_prod_r, slack);
+            eq_mc::<T, 3>(ctx, &key("composition/Matrix3"), m3(rr), model::mmul(model::qmat(mg), model::qmat(mq)), slack);
             if T::EXACT {
+                same_slice(ctx, &key("composition/Matrix4"), &flat_m(m4(l4)), &flat_m(m4(r4)));
                 same_slice(ctx, &key("composition/Matrix3"), &flat_m(m3(l)), &flat_m(m3(r)));
                 same_slice(ctx, &key("composition/Basis3"), &flat_m(basis3_arr(lb)), &flat_m(basis3_arr(rb)));
             }
